@@ -40,7 +40,7 @@ var c13Features = []string{
 	"trimwhitespace=false", "character-prefix", "character-prefix-multi-byte", "replacement:select", "replacement:plural:one", "replacement:plural:other",
 	"replacement:ordinal:one", "replacement:ordinal:two", "replacement:ordinal:few", "replacement:ordinal:other", "replacement:ordinal:teens",
 	"replacement:nomarkup", "replacement-self-closing", "replacement-closed-by-name", "leading-whitespace", "trailing-whitespace",
-	"range-clipped-by-trim", "two-ranges-intersect", "text:astral", "text:cjk", "text:blank", "replacement:select-on-boolean", "long-line", "value:decimal-random-literal",
+	"range-clipped-by-trim", "two-ranges-intersect", "text:astral", "text:cjk", "text:blank", "replacement:select-on-boolean", "long-line", "value:decimal-random-literal", "text:backslash",
 }
 
 func (c13) Thresholds(tier string) map[string]int64 {
